@@ -18,7 +18,7 @@ from fiddle._src.absl_flags import utils as flag_utils
 from harness import common, l2, c02
 from harness.common import Failure, Result, Stream, g_list, g_N, g_codes, g_bool, g_opt
 
-COQ_TARGETS = ["theories/C18Check.vo", "theories/Anchors.vo"]
+COQ_TARGETS = ["theories/C18Check.vo", "theories/AnchorsPath.vo"]
 TRUSTED_BASE = ["zlib / base64 / ast.literal_eval / json (flag values) are trusted",
                 "non-ASCII characters: Python's Unicode database decides printability (the Coq statement is for "
                 "ASCII; the stream covers a few non-ASCII keys at the oracle level)"]
